@@ -12,9 +12,15 @@ var shapes = []struct{ lit, key0, nested string }{
 	{"[$e0, $e1, 3]", "0", ""},
 	{"[\"a\" => $e0, \"b\" => $e1]", "\"a\"", ""},
 	{"[[$e0, 2], [$e1]]", "0", "[0]"},
-	{"[[], $e0, [$e1]]", "0", "[0]"}, // an EMPTY inner list (writes into it must not be shared either)
+	{"[[], $e0, [$e1]]", "0", "[0]"},       // an EMPTY inner list (writes into it must not be shared either)
 	{"listWithKey($e0, $e1)", "\"k\"", ""}, // a list that received a string key after construction
+	// associative arrays holding a list and another associative array / a list holding an associative array
+	{"[\"k\" => [$e0, 2], \"m\" => [\"p\" => $e1]]", "\"k\"", "[0]"},
+	{"[[\"p\" => $e0, \"q\" => 4], $e1]", "0", "[\"p\"]"},
 }
+
+// path to a leaf inside a NESTED associative array of the shape ("" = the shape has none)
+var assocLeaf = []string{"", "", "", "", "", "[\"m\"][\"p\"]", "[0][\"q\"]"}
 
 // prelude shared by all templates
 const prelude = "function listWithKey($x, $y) { $t = [$x, $y, 3]; $t[\"k\"] = 5; return $t; }\n"
@@ -23,6 +29,12 @@ const prelude = "function listWithKey($x, $y) { $t = [$x, $y, 3]; $t[\"k\"] = 5;
 func snap(x string, shape int) string {
 	if shape == 2 {
 		return "foreach (" + x + " as $row) { foreach ($row as $v) { emit($v); } mark(77); } mark(88);"
+	}
+	if shape == 5 {
+		return "foreach (" + x + "[\"k\"] as $v) { emit($v); } mark(77); emit(" + x + "[\"m\"][\"p\"]); mark(88);"
+	}
+	if shape == 6 {
+		return "emit(" + x + "[0][\"p\"]); emit(" + x + "[0][\"q\"]); mark(77); emit(" + x + "[1]); mark(88);"
 	}
 	if shape == 3 {
 		return "foreach (" + x + "[0] as $v) { emit($v); } mark(77); emit(" + x + "[1]); foreach (" + x + "[2] as $v) { emit($v); } mark(88);"
@@ -50,8 +62,30 @@ var routes = []struct{ name, setup, a, b string }{
 }
 
 // mutations of expression X
-func mutation(m int, x string, key0, nested string) (string, bool) {
+func mutation(m int, x string, key0, nested string, shape int) (string, bool) {
 	switch m {
+	case 12: // a leaf inside a nested associative array
+		if assocLeaf[shape] == "" {
+			return "", false
+		}
+		return x + assocLeaf[shape] + " = $w;", true
+	case 13: // a reference taken on a slot of X, then written through
+		if nested != "" && shape != 6 {
+			return "", false
+		}
+		k := key0
+		if shape == 6 {
+			k = "1"
+		}
+		return "$rf = &" + x + "[" + k + "]; $rf = $w;", true
+	case 14: // removing the last / a string-keyed element
+		if shape == 0 {
+			return "unset(" + x + "[2]);", true
+		}
+		if shape == 5 {
+			return "unset(" + x + "[\"m\"][\"p\"]);", true
+		}
+		return "", false
 	case 0:
 		return x + "[" + key0 + "] = $w;", true
 	case 1:
@@ -92,7 +126,7 @@ func mutation(m int, x string, key0, nested string) (string, bool) {
 	return "", false
 }
 
-const nMut = 12
+const nMut = 15
 
 func logInts() ([]int, bool) {
 	var out []int
@@ -130,7 +164,7 @@ func H_alias() {
 	if dir == 1 {
 		mutated, observed = R.a, R.b
 	}
-	mut, ok := mutation(m, mutated, S.key0, S.nested)
+	mut, ok := mutation(m, mutated, S.key0, S.nested, sh)
 	if !ok {
 		return
 	}
@@ -188,8 +222,9 @@ func H_alias() {
 // H_reference: with an explicit & the write IS visible; objects are handles; clone is independent.
 func H_reference() {
 	w := symx.Int("w")
-	k := symx.Choose("case", 3)
+	k := symx.Choose("case", 4)
 	srcs := []string{
+		"class K { public $n = [\"k\" => [1, 2], \"m\" => [\"p\" => 1]]; } $o = new K(); $q = clone $o; $q->n[\"k\"][0] = $w; $q->n[\"m\"][\"p\"] = $w; emit($o->n[\"k\"][0]); emit($o->n[\"m\"][\"p\"]);",
 		"$a = [1, 2]; $b = &$a; $b[0] = $w; emit($a[0]);",
 		"class K { public $p = 1; } $o = new K(); $q = $o; $q->p = $w; emit($o->p);",
 		"class K { public $p = 1; public $arr = [1, 2]; } $o = new K(); $q = clone $o; $q->p = $w; $q->arr[0] = $w; emit($o->p); emit($o->arr[0]);",
@@ -211,10 +246,12 @@ func H_reference() {
 	}
 	switch k {
 	case 0:
-		symx.Assert(len(tr) == 1 && tr[0] == w, "write through & reference is visible")
+		symx.Assert(len(tr) == 2 && tr[0] == 1 && tr[1] == 1, "clone is independent (nested associative arrays of its properties too)")
 	case 1:
-		symx.Assert(len(tr) == 1 && tr[0] == w, "objects are shared by handle")
+		symx.Assert(len(tr) == 1 && tr[0] == w, "write through & reference is visible")
 	case 2:
+		symx.Assert(len(tr) == 1 && tr[0] == w, "objects are shared by handle")
+	case 3:
 		symx.Assert(len(tr) == 2 && tr[0] == 1 && tr[1] == 1, "clone is independent (own properties incl. arrays)")
 	}
 	symx.Reach("end")
